@@ -169,6 +169,12 @@ struct Runner {
     Q el, ed;
     check_one<LD>(e, l, U_LD, "ld", P, nd, el);
     check_one<double>(e, d, U_D, "d", P, nd, ed);
+    if (e.has_cb_arg && !e.special) {  // the callback must have been called, with the exact temperature
+      Expect a = e; a.fn = e.fn + "@callback_arg"; a.ref = e.cb_arg; a.alt_id.clear(); a.mode = 0;
+      Q dummy;
+      check_one<LD>(a, g_cb_calls_l > 0 ? g_cb_arg_l : (LD)NAN, U_LD, "ld", P, nd, dummy);
+      check_one<double>(a, g_cb_calls_d > 0 ? g_cb_arg_d : (double)NAN, U_D, "d", P, nd, dummy);
+    }
     if (samples_left > 0 && e.mode == 0 && !e.special) {
       samples_left--;
       fprintf(out, "{\"k\":\"sample\",\"system\":\"%s\",\"call\":\"%s\",\"ndev\":%d,\"lib_ld\":\"%s\",\"lib_d\":\"%.17g\",\"ref\":\"%s\",\"S\":\"%s\"}\n", C.sys->name.c_str(), jesc(fmt_expect_call(e)).c_str(), nd, ld2s(l).c_str(), d, q2s(e.ref.v, 24).c_str(), q2s(e.ref.s, 6).c_str());
@@ -185,6 +191,7 @@ struct Runner {
     set_all(P);
     for (size_t i = 0; i < C.pts.size(); i++) {
       states += 2;  // (assignment, point) in two scalar types
+      if (C.sys->apply_variant) C.sys->apply_variant(C.pts[i].variant);
       for (auto& e : ex[i]) if (prop_selected(e.prop)) run_expect(e, P, a.nd);
     }
     done++;
